@@ -577,6 +577,83 @@ def collectStack (cfg : Cfg) (final : Nat → Rat → Rat) (w : Wrap) (segs : Li
   | .error e => .error e
   | .ok (st, _, tr) => .ok (st.top.results, st, tr)
 
+/-! ### `filter=` / `mask=` given as an object: `Searcher._filter_to_comb`, `Results.docs()` -/
+
+/-- What `Results.docs()` reads of a `whoosh.searching.Results` object: the hit list `top_n`, the
+    `docset` attribute (`None` in the object a `TopCollector` returns — it "can skip blocks, it doesn't
+    track the total number of matching documents" —, the set of collected documents in the object a
+    `SortingCollector` / `UnlimitedCollector` returns) and what `collector.all_ids()` yields when it is
+    asked (`TopCollector.all_ids`: `top_searcher.docs_for_query(self.q)`, the query is run again). -/
+structure ResultsObj where
+  topN : List Hit
+  docset : Option (List Nat)
+  allIds : List Nat
+deriving Repr, Inhabited
+
+/-- `searching.py Results.docs`: `if self.docset is None: self.docset = set(self.collector.all_ids())`,
+    `return self.docset`. Returns the set and the object as it is afterwards (the set is remembered). -/
+def ResultsObj.docs (r : ResultsObj) : List Nat × ResultsObj :=
+  match r.docset with
+  | some s => (s, r)
+  | none => (r.allIds, { r with docset := some r.allIds })
+
+/-- `TopCollector.results()`: `Results(searcher, q, top_n)` without a docset; `all_ids()` re-runs the
+    query over every segment (`docs_for_query`). -/
+def topResultsObj (hits : List Hit) (segs : List Seg) : ResultsObj :=
+  { topN := hits, docset := none, allIds := globalDocs segs }
+
+/-- `search(fq, limit=k)` (scored) as a `Results` object. -/
+def searchTopObj (cfg : Cfg) (final : Nat → Rat → Rat) (segs : List Seg) (sched : List Step) :
+    Except Err ResultsObj :=
+  match collectTop cfg final segs sched with
+  | .error e => .error e
+  | .ok hits => .ok (topResultsObj hits segs)
+
+/-- `search(fq, limit=None)` as a `Results` object: `UnlimitedCollector.results()` passes
+    `docset=self.docset`, the documents it collected. -/
+def searchUnlimitedObj (replace : Nat) (useFinal : Bool) (final : Nat → Rat → Rat) (reverse : Bool)
+    (segs : List Seg) (sched : List Step) : Except Err ResultsObj :=
+  match collectUnlimited replace useFinal final reverse segs sched with
+  | .error e => .error e
+  | .ok items => .ok { topN := items, docset := some (items.map (·.doc)), allIds := items.map (·.doc) }
+
+/-- What can be handed to `filter=` / `mask=` (`FilterCollector(child, allow, restrict)`). -/
+inductive FilterObj where
+  | absent                        -- `None`
+  | ids (s : List Nat)            -- a `set` / `DocIdSet` of document numbers
+  | results (r : ResultsObj)      -- a `Results` object
+  | page (r : ResultsObj)         -- a `ResultsPage` (`obj.results` is the `Results` object)
+  | query (matched : List Nat)    -- a `query.Query`, with what `docs_for_query` yields for it
+  | other                         -- anything else
+deriving Repr, Inhabited
+
+inductive FilterErr where
+  | unknownObject   -- `Exception("Don't know what to do with filter object %r")`
+deriving DecidableEq, Repr
+
+/-- `searching.py Searcher._filter_to_comb`: `None` stays `None`; a set is taken as it is; a `Results`
+    object stands for `obj.docs()`, a `ResultsPage` for `obj.results.docs()`; a query is run
+    (`_query_to_comb`: `BitSet(self.docs_for_query(fq))`); anything else raises. -/
+def filterToComb : FilterObj → Except FilterErr (Option (List Nat))
+  | .absent => .ok none
+  | .ids s => .ok (some s)
+  | .results r => .ok (some r.docs.1)
+  | .page r => .ok (some r.docs.1)
+  | .query matched => .ok (some matched)
+  | .other => .error .unknownObject
+
+/-- `search(q, limit=k, filter=f, mask=m)`: `FilterCollector.prepare` turns both objects into sets
+    (`self._allow = ftc(allow) if allow is not None else None`, the same for `restrict`), then the stack
+    `FilterCollector(TopCollector)` runs. -/
+def searchFilterObjs (cfg : Cfg) (final : Nat → Rat → Rat) (f m : FilterObj) (segs : List Seg) (sched : List Step) :
+    Except FilterErr (Except Err (List Hit × StackSt × Trace)) :=
+  match filterToComb f with
+  | .error e => .error e
+  | .ok allow =>
+    match filterToComb m with
+    | .error e => .error e
+    | .ok restrict => .ok (collectStack cfg final { allow := allow, restrict := restrict } segs sched)
+
 /-! ### `searching.py: ResultsPage.__init__` -/
 
 structure Page where
